@@ -277,8 +277,49 @@ def make_co2(cs):
     return CO2(**kw)
 
 
+def _np(v):
+    """The same value as a numpy scalar / array (what a user gets when the number comes out of an array or a DataFrame)."""
+    if isinstance(v, bool) or v is None or isinstance(v, str):
+        return v
+    if isinstance(v, int):
+        return np.int64(v)
+    if isinstance(v, float):
+        return np.float64(v)
+    if isinstance(v, list):
+        return [_np(x) for x in v]
+    if isinstance(v, dict):
+        return {k: _np(x) for k, x in v.items()}
+    return v
+
+
+def numpyfied(spec):
+    """A copy of the spec whose numeric SETTINGS are numpy scalars (dates, names, schedules and layer tables stay as they are)."""
+    s = copy.deepcopy(spec)
+    s["crop"]["numpy"] = True
+    for key in ("irr", "field", "fallow"):
+        if s.get(key):
+            if key == "irr":
+                s[key]["kw"] = _np(s[key].get("kw") or {})
+            else:
+                s[key] = _np(s[key])
+    if s.get("gw"):
+        s["gw"]["values"] = _np(s["gw"]["values"])
+    if s.get("iwc"):
+        s["iwc"]["value"] = _np(s["iwc"]["value"])
+        s["iwc"]["depth_layer"] = _np(s["iwc"]["depth_layer"])
+    if s.get("soil"):
+        s["soil"]["kw"] = _np(s["soil"].get("kw") or {})
+    if s.get("co2") and "current_concentration" in s["co2"]:
+        s["co2"]["current_concentration"] = float(s["co2"]["current_concentration"])
+    s["numpy_inputs"] = True
+    return s
+
+
 def make_entities(spec):
     """Fresh entity objects for a spec (dict keyed like the AquaCropModel constructor)."""
+    if spec.get("numpy_inputs") and not spec.get("_numpyfied"):
+        spec = numpyfied(spec)
+        spec["_numpyfied"] = True
     ent = dict(
         weather_df=make_weather(spec),
         soil=make_soil(spec["soil"]),
